@@ -63,6 +63,12 @@ pub struct ServerRef {
 }
 
 impl ServerRef {
+    /// Build a `ServerRef` without a listening socket (simulation harness only).
+    #[cfg(feature = "verif")]
+    pub(crate) fn verif_new(core_ref: CoreRef, comm_ref: CommSenderRef) -> Self {
+        ServerRef { core_ref, comm_ref }
+    }
+
     pub fn get_worker_listen_port(&self) -> u16 {
         self.core_ref.get().get_worker_listen_port()
     }
